@@ -61,7 +61,11 @@ def build_source(sim_props, chart_props, ncharts=1, with_version=False):
     items = items[:1] + list(sim_props) + items[1:]
     charts = []
     for i in range(ncharts):
-        c = [("STEPSTYPE", "dance-single"), ("DESCRIPTION", f"d{i}")] + list(chart_props) + [("DIFFICULTY", "Easy"), ("METER", "3"), ("RADARVALUES", "0,0"), ("NOTES", "0000\n0000")]
+        if i % 2 == 0:
+            c = [("STEPSTYPE", "dance-single"), ("DESCRIPTION", f"d{i}")] + list(chart_props) + [("DIFFICULTY", "Easy"), ("METER", "3"), ("RADARVALUES", "0,0"), ("NOTES", "0000\n0000")]
+        else:
+            # SSC chart values are free text: blanks at the edges must be copied as they are
+            c = [("STEPSTYPE", " dance-single"), ("DESCRIPTION", f"\td{i} \n")] + list(chart_props) + [("DIFFICULTY", "Easy "), ("METER", " 3"), ("RADARVALUES", "0,0\u3000"), ("NOTES", "\n0000\n0000\n")]
         charts.append(c)
     sf = SSCSimfile(string="")
     for k, v in items:
@@ -182,7 +186,7 @@ def check_single(level, prop, state, mapping, st_kind="none", ct_kind="none"):
     v = value_for(prop, state)
     sim_props = [(prop, v)] if level == "simfile" and v is not None else []
     chart_props = [(prop, v)] if level == "chart" and v is not None else []
-    items, charts, sf = build_source(sim_props, chart_props)
+    items, charts, sf = build_source(sim_props, chart_props, ncharts=2)
     return check_conversion(items, charts, sf, mapping, st_kind, ct_kind)
 
 
